@@ -6,6 +6,7 @@ sys.path.insert(0, HERE)
 import sqimpl, modeldrv
 
 JOBS = int(os.environ.get('VERIF_JOBS', '16'))
+MODELPARSER = os.environ.get('VERIF_IMPL_TREES', '') != '1'
 _impl = None
 
 
@@ -235,8 +236,12 @@ def compare(lines, normal=None):
             a, extra = a.split('\t', 1)
             io[i] = a
             l = l + ' ' + extra
-        if a in ('parse-error', 'X RecursionError') :
+        if a == 'X RecursionError' or (a == 'parse-error' and not (MODELPARSER and l.startswith('EVAL '))):
             continue
+        # the model reads the source text with ITS OWN parser (the implementation's tree, sent along as an extra, is
+        # not used): a parse-time rewrite in the implementation cannot hide from an evaluation property
+        if MODELPARSER and l.startswith(('EVAL ', 'SESSION ')) and '(modelparser)' not in l:
+            l += ' (modelparser)'
         mlines.append(l)
         midx.append(i)
     mres = modeldrv.run_model_parallel(mlines, JOBS)
